@@ -576,6 +576,12 @@ func (c *bufioConn) CopyRelayRemainder(dst io.Writer, buf []byte, record func(in
 }
 
 func (c *bufioConn) Read(b []byte) (int, error) {
+	// Once the peeked bytes are drained, read the connection itself: the
+	// bufio.Reader still holds the error of the DNS probe that gave up (its read
+	// deadline expiring) and would return that stale timeout for live data.
+	if c.reader == nil || c.reader.Buffered() == 0 {
+		return c.Conn.Read(b)
+	}
 	return c.reader.Read(b)
 }
 
